@@ -5,3 +5,4 @@ import SamVerif.Spec.Crc
 import SamVerif.Props.C12
 import SamVerif.Props.C10
 import SamVerif.Props.C18
+import SamVerif.Props.C17
